@@ -2,7 +2,8 @@
 C17 — reaction arithmetic agrees with applying the reactions and spares its operands.
 
 Adapter for thermosteam/reaction/_reaction.py (Reaction / ReactionItem / ParallelReaction / SeriesReaction):
-drives `+ - += -= * / *= /= neg copy backwards basis-setter X-setter reduce set.copy set[i:j] reset_chemicals` on real
+drives `+ - += -= * / *= /= neg copy backwards basis-setter X-setter product_yield/reactant_demand-setter reduce set.copy
+set[i:j] set.X=… iteration reset_chemicals` on real
 objects, dumps every object's fields (stoichiometry contents, reactant, X, basis, phases)
 and identity classes of the arrays they hold after every operation, and evaluates the
 property on the real objects only:
@@ -40,7 +41,8 @@ ASSUMPTIONS = [
     'iteration order of set(self._reactant_index) in ParallelReaction.reduce is an external parameter: the key order of the '
     'returned set (or, when reduce raises, of set(self._reactant_index)) is handed to the model, which checks it covers the keys once',
     'three property packages (home: 8 chemicals; two alternatives, one lacking two chemicals and having an extra one); '
-    'reset_chemicals of items/sets, stepped or negative slices, X_net, product_yield are not modelled',
+    'reset_chemicals of items/sets, stepped or negative slices, X_net, ParallelReaction.__add__, ReactionSystem and the getter '
+    'form of product_yield are not modelled (the setter form of product_yield / reactant_demand is)',
     'the agreement laws are evaluated for operands normalised on their reactant (true of everything the constructor '
     'and the operations return); a left operand with empty stoichiometry and X != 0 (Reaction(\'\', ...)) is outside them',
     'products of obj(feed) are observed through __call__ with the default feasibility check; when it refuses a negative '
@@ -53,7 +55,8 @@ ASSUMPTIONS = [
     'routes agree and that __call__ refuses exactly when a flow is negative beyond rounding',
     'the dump compares the identity of the top-level stoichiometry array of each object; rows/dicts inside a SparseArray are '
     'covered by the oracle\'s sharing tokens only',
-    'the model is written to the repaired behaviour of the defects fixed in /repo (C17-1..6, 8900795)',
+    'the model is written to the repaired behaviour of the defects fixed in /repo (C17-1..7, 8900795): in particular '
+    '`item += b` / `item -= b` write the row of the item\'s set in place',
 ]
 TRUSTED = ['Lean 4.33 kernel', 'correspondence harness harness/props/c17.py + Driver/C17.lean',
            'generator reach (see histogram)', 'field-vs-float gap (theorems over ordered fields)']
@@ -173,7 +176,7 @@ class Unexpected(Exception):
 
 LEGIT_ERRORS = [
     (ValueError, 'must be the same'), (ValueError, 'must pass reactant'), (ValueError, 'basis must be'),
-    (ValueError, 'all reactions must'), (ValueError, 'could not broadcast'), (ZeroDivisionError, ''), (FloatingPointError, 'divide by zero'), (RuntimeError, 'does not participate'),
+    (ValueError, 'all reactions must'), (ValueError, 'above the maximum theoretical'), (ValueError, 'could not broadcast'), (ZeroDivisionError, ''), (FloatingPointError, 'divide by zero'), (FloatingPointError, 'invalid value'), (RuntimeError, 'does not participate'),
     (TypeError, 'cannot change basis'), (TypeError, 'cannot reduce'), (IndexError, ''), ('UndefinedChemicalAlias', ''),
 ]
 
@@ -401,6 +404,9 @@ class Universe:
                 if negsum < -1e-9 * scale:
                     self.apply_issues.append(('apply:negative-flow-not-refused',
                         'calling the object returned although feed + conversion has negative flows (sum %r)' % negsum))
+                elif any(x < 0 for x in called):
+                    self.apply_issues.append(('apply:negative-flow-returned',
+                        'calling the object returned a negative flow (%r) that it neither refused nor set to zero' % min(called)))
                 else:
                     want = [max(x, 0.0) if x > -1e-9 * scale else x for x in unchecked]
                     if not vec_close(called, want, feed):
@@ -505,6 +511,15 @@ class Universe:
             o = self.ref(t[1])
             o.basis = barg[t[2]]
             return 'ret', o, line
+        if op == 'yield':
+            o = self.rxn(t[1])
+            name = o.chemicals.IDs[int(t[2])]
+            val = typed(t[3])
+            if zlib.crc32(line.encode()) & 1:
+                o.product_yield(name, barg[t[4]], val)
+            else:
+                o.reactant_demand(name, barg[t[4]], -val)      # the same setter, sign convention of a reactant
+            return 'ret', o, line
         if op == 'setx':
             o = self.rxn(t[1])
             o.X = typed(t[2])
@@ -536,7 +551,10 @@ class Universe:
             vals = [typed(x) for x in t[2].split(',')]
             import numpy as np
             how_ = zlib.crc32(line.encode()) % 3
-            s.X = vals if how_ == 0 else (np.array([float(v) for v in vals]) if how_ == 1 else tuple(vals))
+            if len(vals) == 1 and how_ != 1:
+                s.X = vals[0]                  # a bare scalar: numpy broadcasts it over the set's array
+            else:
+                s.X = vals if how_ == 0 else (np.array([float(v) for v in vals]) if how_ == 1 else tuple(vals))
             return 'ret', s, line
         if op == 'setsx':
             s = self.rset(t[1]); i = int(t[2])
@@ -648,7 +666,7 @@ class Oracle:
         # who reads the conversion cell(s) this operation writes — decided BEFORE the operation, so that a setter
         # which rebinds the array instead of writing it (and so detaches earlier items / slices) is seen
         self.readers = None
-        if self.op in ('setx', 'imul', 'idiv', 'iadd', 'isub', 'setsx', 'setsxall'):
+        if self.op in ('setx', 'yield', 'imul', 'idiv', 'iadd', 'isub', 'setsx', 'setsxall'):
             try:
                 w = U.ref(self.t[1])
                 cells = []
@@ -831,6 +849,18 @@ class Oracle:
                     self.add('%s:%s-write-not-seen-by-%s' % (op, writer, kind2),
                              'after `%s` the %s r%d reads %r where %r was written'
                              % (self.line, kind2, k2, got, vals[ci]))
+        # ---- `item += b` / `item -= b`: does the set still describe the reaction its item describes? -------------
+        if op in ('iadd', 'isub') and is_item(res):
+            ia = int(t[1][1:])
+            if ia in U.parent:
+                ks, row = U.parent[ia]
+                S = U.objs[ks]
+                if is_set(S) and row < len(S._X) and float(S._X[row]) == float(res.X) \
+                        and res._stoichiometry is not S._stoichiometry[row] \
+                        and arr_vals(res._stoichiometry) != arr_vals(S._stoichiometry[row]):
+                    self.add('%s:set-row-stale' % op,
+                             'after `%s` the set r%d carries the new conversion of its item r%d but the old stoichiometry: '
+                             'a fresh set[%d] is not the reaction the item is' % (self.line, ks, ia, row))
         # ---- an item / a slice is created sharing the set's conversion cells and row arrays ------------------
         if op in ('item', 'iteritem', 'slice') and kind == 'ret':
             import numpy as np
@@ -938,22 +968,30 @@ class Oracle:
 
 
 def uses_MW(U, t):
-    """does this line multiply or divide by molecular weights (then nothing is exact any more)"""
+    """does this line multiply or divide by molecular weights, or mix magnitudes that binary64 cannot hold together
+    (then nothing is exact any more)"""
     try:
         op = t[0]
         lab = {'m': 'mol', 'w': 'wt'}
+        if op in ('apply', 'applys', 'applys2', 'subcancel'):
+            # a trace amount next to ordinary flows is absorbed by rounding: nothing is exact then
+            if any(0 < abs(plain(x)) < 2.0 ** -18 for x in t[-1].split(',')): return True
         if op in ('copy', 'setbasis', 'setcopy'):
             return t[2] in lab and lab[t[2]] != U.ref(t[1])._basis
         if op in ('add', 'radd', 'sub', 'iadd', 'isub', 'subcancel'):
             return t[2].startswith('r') and U.ref(t[1])._basis != U.ref(t[2])._basis
         if op in ('applys', 'applys2'):
             return U.ref(t[1])._basis == 'wt'
+        if op == 'yield':
+            return t[4] in lab and lab[t[4]] != U.ref(t[1])._basis
     except Exception:
         return True
     return False
 
 
 def run_ops(ops):
+    # `PRELUDE` stands for the package lines of this run (used by hand-written witnesses)
+    ops = [l2 for l in ops for l2 in (prelude() if l == 'PRELUDE' else [l])]
     U = Universe()
     outs, model_in, failures = [], [], []
     exact = True
@@ -975,6 +1013,8 @@ def run_ops(ops):
         try:
             U._pending_model_line = line
             kind, res, mline = U.run(line)
+            if kind == 'ret' and not (is_rxn(res) or is_set(res)):
+                raise Unexpected('`%s` evaluated to a %s, not to a reaction object' % (t[0], type(res).__name__))
         except BadCase:
             raise
         except Exception as e:
@@ -982,7 +1022,7 @@ def run_ops(ops):
             orc.after_error(e)
             # (dividing by a numpy zero raises FloatingPointError under thermosteam's numpy error state:
             #  the same "division by zero" of the error enum)
-            status = 'err=' + ('ZeroDivisionError' if isinstance(e, FloatingPointError) and 'divide by zero' in str(e)
+            status = 'err=' + ('ZeroDivisionError' if isinstance(e, FloatingPointError) and ('divide by zero' in str(e) or 'invalid value' in str(e))
                                else type(e).__name__)
         else:
             if kind == 'ret':
@@ -1001,12 +1041,29 @@ def run_ops(ops):
                 status = 'out=' + ' out2='.join(dense_str(v) for v in res)
                 for v in res:
                     if not all(short(x) for x in v): exact = False
-            orc.after_ok(kind, res)
+            try:
+                orc.after_ok(kind, res)
+            except BadCase:
+                raise
+            except Exception as e:
+                orc.add('%s:object-unreadable:%s' % (t[0], type(e).__name__),
+                        'after `%s` the oracle cannot read the objects: %s' % (line[:60], str(e)[:100]))
         failures.extend(orc.fail)
         for sig, what in U.apply_issues:
             failures.append({'signature': sig, 'op_index': i, 'what': 'in `%s`: %s' % (line[:60], what)})
         U.apply_issues = []
-        d, allshort = U.dump()
+        try:
+            d, allshort = U.dump()
+        except BadCase:
+            raise
+        except Exception as e:
+            # an object can no longer be read (e.g. its conversion was replaced by something that is not one):
+            # that is a finding about the operation just executed, and the end of what can be compared
+            failures.append({'signature': '%s:object-unreadable:%s' % (t[0], type(e).__name__), 'op_index': i,
+                             'what': 'after `%s` the fields of an object cannot be read: %s' % (line[:60], str(e)[:100])})
+            outs.append('T|' + status + ' | unreadable')
+            model_in.append(mline)
+            break
         if not allshort: exact = False
         outs.append(('E|' if exact else 'T|') + status + ' | ' + d)
         model_in.append(mline)
@@ -1015,7 +1072,8 @@ def run_ops(ops):
 
 def run_impl(case: Case) -> ImplResult:
     U, outs, model_in, failures, arith_ok = run_ops(case.ops)
-    tags = sorted({l.split(' ')[0] for l in case.ops})
+    # an operation is counted when it really ran to completion on the real objects (not when it raised)
+    tags = sorted({l.split(' ')[0] for l, o in zip(model_in, outs) if not o[2:].startswith('err=')})
     tags += ['err:' + o.split('|')[1].strip()[4:] for o in outs if o[2:].startswith('err=')]
     tags.append('mode:' + ('exact' if outs and outs[-1].startswith('E|') else 'tolerance'))
     for suf, nm in (('@a', 'X-as:0d-array'), ('@n', 'X-as:np.float64'), ('@i', 'X-as:int')):
@@ -1107,7 +1165,10 @@ def gen_X(rng, friendly):
         x = 1.0 / (1 << rng.randrange(0, 5))
         return -x if r < 0.1 else x
     if r < 0.04: return 0.0
-    if r < 0.14: return -dy(rng, 1 / 64, 1, 64)
+    if r < 0.09:          # conversions far below the 1/64 grid (a cut-off like |X| < 1e-6 must not go unnoticed)
+        x = 2.0 ** -rng.randrange(10, 41) if rng.random() < 0.7 else rng.randrange(1, 10) * 10.0 ** -rng.randrange(3, 10)
+        return -x if rng.random() < 0.2 else x
+    if r < 0.16: return -dy(rng, 1 / 64, 1, 64)
     if r < 0.24: return dy(rng, 1, 2, 64)
     return dy(rng, 1 / 64, 1, 64)
 
@@ -1143,6 +1204,11 @@ def gen_feed(rng, ph, hot=(), n=None):
     f = [rng.randrange(0, 129) / 4.0 if rng.random() < 0.7 else 0.0 for _ in range(L)]
     for h in hot:
         if h < L and f[h] == 0.0: f[h] = rng.randrange(1, 129) / 4.0
+    if hot and rng.random() < 0.1:
+        # a trace of reactant: over-conversion then gives negatives of 1e-6 … 1e-10, the range the feasibility
+        # decision of __call__ has to judge
+        for h in hot:
+            if h < L: f[h] = 2.0 ** -rng.randrange(20, 56)
     return ','.join(frac(x) for x in f)
 
 
@@ -1159,6 +1225,7 @@ def gen_k(rng, friendly, for_div):
         return k
     r = rng.random()
     if r < 0.03: return 0.0
+    if r < 0.07: return 2.0 ** -rng.randrange(10, 31)
     k = dy(rng, 1 / 8, 6, 8)
     return -k if r < 0.15 else k
 
@@ -1170,9 +1237,9 @@ def gen_op(rng, U, friendly):
     kind = rng.choices(
         ['add', 'sub', 'iadd', 'isub', 'addz', 'mul', 'div', 'neg', 'imul', 'idiv', 'copy', 'back', 'setbasis',
          'setx', 'mkset', 'item', 'setsx', 'reduce', 'apply', 'applys', 'subcancel', 'setcopy', 'slice', 'reset',
-         'applys2', 'iteritem', 'setsxall'],
+         'applys2', 'iteritem', 'setsxall', 'yield'],
         [14, 12, 8, 8, 5, 7, 6, 4, 4, 4, 6, 7, 4,
-         4, 7, 8, 6, 7, 10, 4, 5, 6, 6, 6, 5, 6, 6])[0]
+         4, 7, 8, 6, 7, 10, 4, 5, 6, 6, 6, 5, 6, 6, 6])[0]
     a = rng.choice(rx)
     oa = U.objs[a]
     def partner():
@@ -1186,6 +1253,8 @@ def gen_op(rng, U, friendly):
         # a vanishing denominator is only comparable when no rounding residue can be present
         xs = float(oa.X) + (float(ob.X) if kind in ('add', 'iadd') else -float(ob.X))
         if xs == 0.0 and not (obj_clean(U, oa) and obj_clean(U, ob)): return None
+        if ill_conditioned(float(oa.X), float(ob.X), 1 if kind in ('add', 'iadd') else -1) \
+                and not (obj_clean(U, oa) and obj_clean(U, ob)): return None
         return '%s r%d r%d' % (kind, a, b)
     if kind == 'addz':
         return rng.choice(['add r%d none', 'add r%d zero', 'radd r%d zero', 'sub r%d none', 'sub r%d zero',
@@ -1213,6 +1282,14 @@ def gen_op(rng, U, friendly):
         tgt = a if rng.random() < 0.9 or not sets else rng.choice(sets)
         return 'setbasis r%d %s' % (tgt, rng.choices(['m', 'w', 'x', '-'], [40, 50, 5, 5])[0])
     if kind == 'setx': return 'setx r%d %s' % (a, how(rng, gen_X(rng, friendly)))
+    if kind == 'yield':
+        f = U.fields(oa); n_ = nch(oa)
+        # (a rounding residue as coefficient would give a huge conversion where the exact model divides by zero)
+        cols = sorted({i % n_ for i, x in enumerate(f['v'][0]) if abs(x) > 1e-6})
+        if not cols and not obj_clean(U, oa): return None
+        c = rng.choice(cols) if cols and (rng.random() < 0.92 or not obj_clean(U, oa)) else rng.randrange(n_)
+        y = rng.randrange(-32, 33) / 16.0
+        return 'yield r%d %d %s %s' % (a, c, how(rng, y), rng.choices(['-', 'm', 'w', 'x'], [55, 21, 21, 3])[0])
     if kind == 'mkset':
         good = [k for k in rx if nph(U.objs[k]) == nph(oa) and (U.objs[k]._basis == oa._basis or rng.random() < 0.05)
                 and (U.objs[k].chemicals is oa.chemicals or rng.random() < 0.05)]
@@ -1273,8 +1350,17 @@ def gen_op(rng, U, friendly):
     if kind == 'subcancel':
         b = partner(); ob = U.objs[b]
         if float(oa.X) == 0.0 or float(oa.X) + float(ob.X) == 0.0: return None
+        if abs(float(oa.X)) < 1e-4 * abs(float(ob.X)) or ill_conditioned(float(oa.X), float(ob.X), 1): return None
         return 'subcancel r%d r%d %s' % (a, b, gen_feed(rng, nph(oa), [ridx_of(oa._reactant_index, nph(oa), oa)], nch(oa)))
     return None
+
+
+def ill_conditioned(xa, xb, sign):
+    """the combined conversion X_a ± X_b is a small difference of larger numbers: in binary64 the resulting
+    stoichiometry (divided by that difference) loses the digits the comparison needs — not comparable unless
+    every value involved is exact"""
+    s = xa + sign * xb
+    return s != 0.0 and abs(s) < 1e-4 * max(abs(xa), abs(xb))
 
 
 def reduce_safe(U, line):
@@ -1287,6 +1373,7 @@ def reduce_safe(U, line):
         k = ridx_of(ri, ph, s)
         if k in sums:
             if float(x) != 0.0:
+                if ill_conditioned(sums[k], float(x), 1): return False
                 sums[k] += float(x)
                 if sums[k] == 0.0: return False
         else:
@@ -1303,8 +1390,9 @@ def gen_case(rng, length):
             U.ready = True; return True
         try:
             kind, res, _ = U.run(line)
+            if kind == 'ret' and not (is_rxn(res) or is_set(res)): return False
         except BadCase:
-            raise
+            ops.pop(); raise
         except Exception:
             return False
         if kind == 'ret':
@@ -1330,9 +1418,14 @@ def gen_case(rng, length):
     tries = 0
     while n < length and tries < 6 * length:
         tries += 1
-        line = gen_op(rng, U, friendly)
+        try:
+            line = gen_op(rng, U, friendly)
+            if line is not None and line.startswith('reduce') and not reduce_safe(U, line): continue
+        except BadCase:
+            raise
+        except Exception:
+            break       # the objects of the tree under test can no longer be read: the case ends here (run_impl reports it)
         if line is None: continue
-        if line.startswith('reduce') and not reduce_safe(U, line): continue
         do(line)
         n += 1
     return Case(ops, {})
@@ -1348,8 +1441,9 @@ def gen_case_item_mixed(rng, length):
             U.ready = True; return True
         try:
             kind, res, _ = U.run(line)
+            if kind == 'ret' and not (is_rxn(res) or is_set(res)): return False
         except BadCase:
-            raise
+            ops.pop(); raise
         except Exception:
             return False
         if kind == 'ret' and (line.split(' ')[0] in NON_INPLACE or U.index_of(res) is None):
@@ -1372,7 +1466,8 @@ def gen_case_item_mixed(rng, length):
             do('item r%d %d' % (sid, i)); items.append(len(U.objs) - 1)
     hot = [ridx_of(U.objs[0]._reactant_index, ph, U.objs[0])]
     def xsum_zero(p, q, sign):
-        return float(U.objs[p].X) + sign * float(U.objs[q].X) == 0.0
+        xa_, xb_ = float(U.objs[p].X), float(U.objs[q].X)
+        return xa_ + sign * xb_ == 0.0 or ill_conditioned(xa_, xb_, sign) or (sign == 1 and abs(xa_) < 1e-4 * abs(xb_))
     n = 0
     for _ in range(4 * length):
         if n >= length: break
@@ -1404,10 +1499,16 @@ def generate(rng, tier, index, nworkers):
     n = max(1, b['cases'] // nworkers)
     for j in range(n):
         r = rng.random()
-        if r < 0.1: yield gen_case_item_mixed(rng, rng.randrange(4, 14))
-        elif r < 0.5: yield gen_case(rng, rng.randrange(3, 9))
-        elif r < 0.9: yield gen_case(rng, rng.randrange(8, 20))
-        else: yield gen_case(rng, 30)
+        try:
+            if r < 0.1: c = gen_case_item_mixed(rng, rng.randrange(4, 14))
+            elif r < 0.5: c = gen_case(rng, rng.randrange(3, 9))
+            elif r < 0.9: c = gen_case(rng, rng.randrange(8, 20))
+            else: c = gen_case(rng, 30)
+        except BadCase:
+            continue          # the tree under test made the generator's own bookkeeping inconsistent: draw another case
+        except Exception:
+            continue          # (objects unreadable while choosing the next operation: see gen_case)
+        yield c
 
 
 def corpus():
